@@ -17,11 +17,12 @@ pub struct RunSpec {
     pub hashers: Vec<HKind>,
     /// abstraction-adequacy check on duplicate hits (C17)
     pub adequacy: bool,
+    pub adequacy_depth: usize,
     pub max_depth: usize,
 }
 
 fn spec(cfg: Cfg, want: Wants) -> RunSpec {
-    RunSpec { cfg, want, hashers: vec![], adequacy: false, max_depth: usize::MAX }
+    RunSpec { cfg, want, hashers: vec![], adequacy: false, adequacy_depth: 1, max_depth: usize::MAX }
 }
 
 /// every other configuration of a menu is constructed through the second builder path
@@ -71,6 +72,11 @@ fn wtlfu(w: usize, pt: usize, pb: usize, samples: usize, seeds: [u64; 4], kh: KH
 
 pub const SEEDS: [[u64; 4]; 4] = [[1, 2, 3, 4], [0, 0, 0, 0], [0, 1, 1 << 32, u64::MAX], [0x9e3779b97f4a7c15, 0xbf58476d1ce4e5b9, 0x94d049bb133111eb, 0x2545f4914f6cdd1d]];
 
+fn keys(mut c: Cfg, k: u8) -> Cfg {
+    c.keys = k;
+    c
+}
+
 /// 2Q (size, recent ratio, ghost ratio) corners; all construct successfully (ghost bound >= 1)
 fn twoq_menu(tier: Tier) -> Vec<(usize, f64, f64)> {
     let mut v = vec![
@@ -115,6 +121,9 @@ fn wtlfu_menu(tier: Tier) -> Vec<Cfg> {
                 v.push(wtlfu(1, 1, 1, s, *seeds, if si % 2 == 0 { KHKind::Identity } else { KHKind::Spread }));
             }
         }
+        v.push(keys(wtlfu(2, 2, 2, 3, SEEDS[0], KHKind::Identity), 7));
+        v.push(keys(wtlfu(1, 2, 3, 5, SEEDS[3], KHKind::Spread), 7));
+        v.push(keys(wtlfu(3, 1, 2, 4, SEEDS[2], KHKind::Identity), 7));
         v.push(wtlfu(1, 1, 1, 3, SEEDS[0], KHKind::Constant));
         v.push(wtlfu(1, 2, 1, 7, SEEDS[3], KHKind::Identity));
     }
@@ -131,7 +140,7 @@ fn policy_menu_inner(kind: Kind, tier: Tier) -> Vec<Cfg> {
         Kind::Raw => {
             let mut v = vec![raw(1, 1, 1), raw(2, 1, 1), raw(3, 1, 1), raw(2, 2, 2)];
             if tier == Tier::Thorough {
-                v.extend([raw(4, 1, 1), raw(3, 2, 2), raw(4, 2, 1), raw(1, 2, 2)]);
+                v.extend([raw(4, 1, 1), raw(3, 2, 2), raw(4, 2, 1), raw(1, 2, 2), raw(4, 2, 2), raw(5, 1, 1), raw(5, 2, 1), raw(6, 2, 1)]);
             }
             v
         }
@@ -146,6 +155,10 @@ fn policy_menu_inner(kind: Kind, tier: Tier) -> Vec<Cfg> {
             if tier == Tier::Thorough {
                 v.push(slru(2, 2, 2));
                 v.push(slru(1, 3, 2));
+                v.push(slru(3, 2, 2));
+                v.push(keys(slru(3, 3, 1), 8));
+                v.push(keys(slru(2, 4, 1), 8));
+                v.push(keys(slru(4, 2, 1), 8));
             } else {
                 v.push(slru(1, 1, 2));
             }
@@ -156,15 +169,24 @@ fn policy_menu_inner(kind: Kind, tier: Tier) -> Vec<Cfg> {
             // two value versions, so that a stale or misplaced value is visible
             v.push(twoq(2, 0.25, 0.5, 2));
             v.push(twoq(2, 0.5, 1.0, 2));
+            if tier == Tier::Thorough {
+                v.push(keys(twoq(4, 0.25, 0.5, 1), 7));
+                v.push(keys(twoq(5, 0.25, 0.5, 1), 8));
+                v.push(keys(twoq(4, 0.5, 0.5, 1), 7));
+                v.push(keys(twoq(6, 0.34, 0.34, 1), 8));
+                v.push(twoq(3, 0.34, 0.34, 2));
+                v.push(twoq(3, 1.0, 0.34, 2));
+            }
             v
         }
         Kind::Arc => {
             let mut v = vec![arc(1, 1), arc(2, 1), arc(3, 1), arc(1, 2), arc(2, 2)];
             if tier == Tier::Thorough {
-                let mut big = arc(4, 1);
-                big.keys = 6;
-                big.lean_ops = true;
-                v.push(big);
+                v.push(keys(arc(4, 1), 6));
+                v.push(keys(arc(3, 1), 7));
+                v.push(keys(arc(4, 1), 7));
+                v.push(keys(arc(5, 1), 7));
+                v.push(keys(arc(3, 2), 5));
             }
             v
         }
@@ -330,7 +352,12 @@ pub fn plan(prop: &str, tier: Tier) -> Vec<RunSpec> {
                 };
                 for mut c in menu {
                     c.with_clone = false;
-                    c.lean_ops = true;
+                    // the plain LRU keeps its full operation set: get_lru(_mut), *_or_put, resize relink the
+                    // list in their own ways, and a mis-linked list shows first in the back-to-front iterators
+                    c.lean_ops = k != Kind::Raw;
+                    if k == Kind::Raw {
+                        c.resize = vec![1, (c.caps[0] + 1) as u8];
+                    }
                     let mut w = obs_want();
                     w.iters = true;
                     out.push(spec(c, w));
@@ -346,14 +373,30 @@ pub fn plan(prop: &str, tier: Tier) -> Vec<RunSpec> {
                     if cb == 1 {
                         c.hasher = HKind::Random;
                     }
-                    out.push(spec(c, obs_want()));
+                    // hidden state (e.g. whether the callback is still installed) is not part of the
+                    // abstract state: the adequacy pass compares histories that merge, callback log included
+                    let mut sp = spec(c, obs_want());
+                    sp.adequacy = *cap <= 3;
+                    // two further steps on the smallest configuration (e.g. a lost callback only shows at the
+                    // next eviction, which needs a refill first)
+                    if *cap == 1 {
+                        sp.cfg.lean_ops = true;
+                        sp.cfg.with_clone = false;
+                        sp.cfg.resize = vec![0, 2];
+                        sp.adequacy_depth = 3;
+                    }
+                    out.push(sp);
                 }
             }
         }
         "C16" => {
             for k in [Kind::Raw, Kind::Slru, Kind::Wtlfu] {
                 let menu: Vec<Cfg> = match (k, tier) {
-                    (Kind::Raw, Tier::Quick) => vec![raw(2, 1, 2), raw(3, 1, 1)],
+                    (Kind::Raw, Tier::Quick) => {
+                        let mut cb = raw(2, 1, 1);
+                        cb.callback = 2;
+                        vec![raw(2, 1, 2), raw(3, 1, 1), cb]
+                    }
                     (Kind::Raw, Tier::Thorough) => vec![raw(2, 1, 2), raw(3, 1, 1), raw(4, 1, 1), raw(3, 2, 2)],
                     (Kind::Slru, Tier::Quick) => vec![slru(1, 1, 2), slru(2, 1, 1), slru(1, 2, 1), slru(2, 2, 1)],
                     (Kind::Slru, Tier::Thorough) => vec![slru(1, 1, 2), slru(2, 2, 1), slru(2, 1, 2), slru(3, 2, 1)],
@@ -380,6 +423,20 @@ pub fn plan(prop: &str, tier: Tier) -> Vec<RunSpec> {
             }
         }
         "C17" => {
+            {
+                // the eviction callback's view (order of departures) must not depend on the hasher either
+                let mut cb = raw(2, 1, 1);
+                cb.callback = 2;
+                let mut s = spec(cb, obs_want());
+                s.hashers = vec![HKind::SipB, HKind::Identity, HKind::Zero, HKind::Fnv, HKind::Random, HKind::Random];
+                out.push(s);
+                let mut cb3 = raw(3, 1, 1);
+                cb3.callback = 2;
+                cb3.lean_ops = true;
+                let mut s = spec(cb3, obs_want());
+                s.hashers = vec![HKind::Identity, HKind::Zero, HKind::Random];
+                out.push(s);
+            }
             for k in ALL_KINDS {
                 let menu: Vec<Cfg> = match tier {
                     Tier::Quick => small_menu(k, Tier::Quick).into_iter().take(2).collect(),
